@@ -304,7 +304,13 @@ pub fn gen_c15(seed: u64, thorough: bool) -> Scenario {
   let mut srng = root.fork("schedule");
   let mut config = gen_config(&mut crng);
   // the subject flags; the run compares against the full-index twin
-  let combo = crng.below(7) as u32; // 0..6: every combination except all-on
+  // every combination except all-on; half of the runs take the node-fetch
+  // path (neither sats nor addresses)
+  let combo = if crng.chance(1, 2) {
+    *crng.pick(&[0u32, 4])
+  } else {
+    crng.below(7) as u32
+  };
   config.index_sats = combo & 1 != 0;
   config.index_addresses = combo & 2 != 0;
   config.index_transactions = combo & 4 != 0;
